@@ -482,7 +482,12 @@ def subscript(I, obj, idx):
             rp = S.rope_of(I, obj)
             if rp is not None:
                 if isinstance(idx, slice) and idx.step in (None, 1):
-                    r = S.rope_slice(I, rp, 0 if idx.start is None else idx.start, n if idx.stop is None else idx.stop)
+                    lo_, hi_ = (0 if idx.start is None else idx.start), (n if idx.stop is None else idx.stop)
+                    if isinstance(lo_, int) and lo_ < 0:
+                        lo_ = norm_int(to_z3_int(n) + lo_)
+                    if isinstance(hi_, int) and hi_ < 0:
+                        hi_ = norm_int(to_z3_int(n) + hi_)
+                    r = S.rope_slice(I, rp, lo_, hi_)
                     if r is not None:
                         return S.plain_or_sstr(z3.simplify(S.parts_term(r)), obj.is_bytes)
                 elif not isinstance(idx, slice):
